@@ -8,7 +8,8 @@
    fuel = non-termination); for parser computations Val | Exn (XLib e) | Exn (XInt e). *)
 From DV Require Import Base.Prelude Model.NameM Model.ParserM Model.UntrustedM.
 From DV Require Model.TokM Model.SchemaM Model.SchemaHand Proofs.UntrustedSchema Proofs.UntrustedHand Model.ZoneTextM Proofs.UntrustedZone
-                Model.RdTextM Model.UntrustedTextM Proofs.UntrustedMsgText Proofs.UntrustedMsgTerm.
+                Model.RdTextM Model.UntrustedTextM Proofs.UntrustedMsgText Proofs.UntrustedMsgTerm
+                Model.TsigM Proofs.UntrustedTsig.
 From DV Require Import Proofs.NameValid Proofs.ParserSafe Proofs.ParserProg
                        Proofs.UntrustedSafe Proofs.UntrustedDec Proofs.UntrustedText.
 Open Scope Z_scope.
@@ -418,6 +419,66 @@ Theorem text_token_loops_terminate : forall st : TokM.tstate,
 Proof. exact UntrustedMsgTerm.text_loops_terminate. Qed.
 Print Assumptions text_token_loops_terminate.
 
+(* dns.rdata.from_text on C05's model of it (TokM.rdata_from_text: first token, the generic-syntax
+   branch with its wire re-encoding check, the per-type text parser, the end-of-line check - all
+   inside ExceptionWrapper(SyntaxError)), for an ARBITRARY per-type parser and wire codec: a value or
+   a SyntaxError-family error.  With text_token_loops_terminate and no_internal_tokenizer the loops
+   inside end for every text schema of Model/RdTextM.v. *)
+Theorem no_internal_rdata_text : forall (V : Type) (per_type : TokM.tstate -> res (V * TokM.tstate))
+    (from_wire : list Z -> res V) (to_wire : V -> res (list Z)) (text : list Z),
+  match TokM.rdata_from_text per_type from_wire to_wire text with
+  | Ok _ => True
+  | Lib e => TokM.in_syntax_family e = true
+  | Internal _ => False
+  end.
+Proof. exact @UntrustedMsgTerm.rdata_from_text_family. Qed.
+Print Assumptions no_internal_rdata_text.
+
+(* ================= signed messages: validation with a real key ================= *)
+
+(* On C14's model (Model/TsigM.v: dns.tsig.validate / _digest / _maybe_start_digest / get_context,
+   TSIG.from_wire_parser, the TSIG and OPT paths of _WireReader, every keyring form - None, key,
+   dictionary of keys or bare secrets).  For ANY keyed hash function H, any octet string, any
+   keyring, request MAC (at most 65535 octets), running context, multi flag and clock: a message or a
+   library error (FormError family, BadTime, BadSignature, BadKey, BadAlgorithm, the Peer* errors,
+   UnknownTSIGKey, NeedAbsoluteNameOrOrigin for a relative key name; eUnsupported = GSS-TSIG / UPDATE,
+   outside the model) - never struct.error, AssertionError, ValueError or NotImplementedError.
+   (The first version of this proof left exactly one case open - NotImplementedError out of
+   _maybe_start_digest for a later envelope of a multi-message exchange - which was reproduced on
+   the library and repaired as /repo ed7f7ab; C14's model mirrors the repair.) *)
+Theorem no_internal_signed_message :
+  forall (H : TsigM.hashid -> TsigM.bytes -> TsigM.bytes -> TsigM.bytes) (w : TsigM.bytes)
+         (kr : TsigM.keyring) (request_mac : TsigM.bytes) (ctx : option TsigM.hctx) (multi : bool) (now : Z),
+  bytes_ok w -> zlen request_mac <= 65535 ->
+  match TsigM.read H w kr request_mac ctx multi now with
+  | Ok _ => True
+  | Lib e => UntrustedTsig.tlib e
+  | Internal _ => False
+  end.
+Proof. exact UntrustedTsig.signed_message_family. Qed.
+Print Assumptions no_internal_signed_message.
+
+(* dns.tsig.validate itself, for a TSIG rdata as TSIG.from_wire_parser produces it (tsig_inv:
+   fudge, original id, error and the two length fields in range) *)
+Theorem no_internal_tsig_validate :
+  forall (H : TsigM.hashid -> TsigM.bytes -> TsigM.bytes -> TsigM.bytes) (wire : TsigM.bytes) (k : TsigM.key)
+         (owner : name) (rd : TsigM.tsig) (now : Z) (request_mac : TsigM.bytes) (tsig_start : nat)
+         (ctx : option TsigM.hctx) (multi : bool),
+  (12 <= length wire)%nat -> UntrustedTsig.tsig_inv rd -> zlen request_mac <= 65535 ->
+  match TsigM.validate H wire k owner rd now request_mac tsig_start ctx multi with
+  | Ok _ => True
+  | Lib e => UntrustedTsig.tlib e
+  | Internal _ => False
+  end.
+Proof. exact UntrustedTsig.validate_family. Qed.
+Print Assumptions no_internal_tsig_validate.
+
+(* TSIG.from_wire_parser establishes tsig_inv *)
+Theorem tsig_from_wire_establishes_inv : forall (w : TsigM.bytes), bytes_ok w -> forall (endp pos : nat) t,
+  TsigM.tsig_from_wire w endp pos = Ok t -> UntrustedTsig.tsig_inv t.
+Proof. exact UntrustedTsig.tsig_from_wire_inv. Qed.
+Print Assumptions tsig_from_wire_establishes_inv.
+
 (* ================= non-vacuity ================= *)
 
 (* a message whose A record is one octet short: in continue_on_error mode the failure (FormError,
@@ -471,3 +532,10 @@ Proof. vm_compute. reflexivity. Qed.
 Example ex_msgtext_type65536 :
   ex_msgtext [105; 100; 32; 49; 10; 59; 65; 78; 83; 87; 69; 82; 10; 101; 120; 97; 109; 112; 108; 101; 46; 32; 51; 48; 48; 32; 73; 78; 32; 84; 89; 80; 69; 54; 53; 53; 51; 54; 32; 92; 35; 32; 48; 10] = Lib TokM.eSyntax.
 Proof. vm_compute. reflexivity. Qed.
+
+(* the envelope that raised NotImplementedError before fix ed7f7ab: BadAlgorithm now *)
+Example ex_unimplemented_algorithm_multi :
+  TsigM.read (fun _ _ _ => []) UntrustedTsig.nie_wire (TsigM.KR_Dict [(NameM.root, inr [1])]) []
+       (Some {| TsigM.c_hash := TsigM.SHA256; TsigM.c_size := None; TsigM.c_key := [1]; TsigM.c_data := [] |}) true 0
+  = Lib TsigM.eBadAlgorithm.
+Proof. exact UntrustedTsig.unimplemented_algorithm_multi. Qed.
